@@ -438,10 +438,12 @@ static void jacobiEig(std::vector<LD>& M, int n, std::vector<LD>& w, std::vector
 struct Judge {
     Ctx& c; const Prob& P; const Out& O; int solver; int klass; bool bilateral;
     std::string sn, plusClass;
+    double* maxSoft = nullptr;      // largest residual/tolerance over the soft conditions of this case
     bool skipSoft = false;          // PLUS, not designed, some contact slides initially: existence of a solution of the
                                     // solver's frozen-direction sliding model is not guaranteed -> soft conditions not judged
     void chk(const std::string& key, double resid, double tol, const std::function<Json()>& wit) const {
         if (key.empty()) { c.obs("PLUS:soft-condition-not-judged:generic-initial-sliding"); return; }
+        if (tol > 0) *maxSoft = std::max(*maxSoft, resid / tol); else if (resid > 0) *maxSoft = 1e300;
         c.check(key, resid, tol, wit);
     }
     mutable std::string lastCond;   // condition name of the most recent soft key (goes into the witness of collapsed keys)
@@ -478,9 +480,10 @@ struct Judge {
     }
 };
 
-static void judge(Ctx& c, const Prob& P, const Out& O, int solver, int klass, bool bilateral) {
+static void judge(Ctx& c, const Prob& P, const Out& O, int solver, int klass, bool bilateral, double& maxSoftRatio) {
     const int m = P.m; const int p = (int)P.part.size();
     Judge J{c, P, O, solver, klass, bilateral};
+    J.maxSoft = &maxSoftRatio;
     J.sn = SN[solver];
     const std::string sn = J.sn, op = bilateral ? "solveBilateral" : "solve";
     J.ctol = P.ctol > 0 ? P.ctol : (solver == S_PLUS ? 1e-10 : 1e-6);
@@ -584,7 +587,8 @@ static void judge(Ctx& c, const Prob& P, const Out& O, int solver, int klass, bo
             if (P.con[k].type != IS::Observing && !P.con[k].Fk.empty() && O.con[k].fcond == IS::Impending) impending = true;
         }
         J.plusClass = rankdef ? "rank-deficient-A" : negsign ? "negative-sign-friction" : impending ? "impending-slip" : !plusSingle ? "multi-interval" : "";
-        J.skipSoft = !P.designed && nInitSliding > 0;
+        // (with D != 0 PLUS solves a different problem than the designed one -- D is ignored -- so existence is not guaranteed either)
+        J.skipSoft = (!P.designed || P.dpos()) && nInitSliding > 0;
         c.obs("PLUS:class:" + (J.plusClass.empty() ? std::string("benign") : J.plusClass) + (J.skipSoft ? ":soft-not-judged" : ""));
     }
     const bool eqOK = (solver == S_PGS) || plusSingle;     // equalities tied to the last reported condition
@@ -785,10 +789,12 @@ static void oneCase(Ctx& c, long ci, Rng& r, long onlyKlass, long onlySolver) {
         return;
     }
     const long v0 = c.numViolations();
-    judge(c, P, O, solver, klass, bilateral);
-    if (solver == S_PLUS && !bilateral && O.exc.empty() && c.numViolations() == v0) {
-        // every documented condition verified by the harness: the solver has converged; its return value must say so
-        c.require("retbool:PLUS:solve:false-although-all-conditions-hold", O.ret || P.part.empty(), [&] { return probJson(P).set("ret", O.ret); });
+    double maxSoft = 0;
+    judge(c, P, O, solver, klass, bilateral, maxSoft);
+    if (solver == S_PLUS && !bilateral && O.exc.empty() && c.numViolations() == v0 && maxSoft <= 0.005) {
+        // every documented condition verified by the harness with residuals below half the solver's own tolerance
+        // (the judging tolerance is 100x that): the solver has converged; its return value must say so
+        c.require("retbool:PLUS:solve:false-although-all-conditions-hold", O.ret || P.part.empty(), [&] { return probJson(P).set("ret", O.ret).set("max_soft_ratio", maxSoft); });
         if (P.part.empty()) c.require("retbool:PLUS:solve:p0", O.ret, [&] { return probJson(P); });
     }
     if (solver == S_PLUS && bilateral) c.require("retbool:PLUS:solveBilateral", O.ret, [&] { return probJson(P); });
